@@ -12,7 +12,7 @@ from ir import walk, unwrap, show
 from effects import PRIMS, prim_name, classify_coef, aliases_of, uses_of, locate
 from framework import Check
 
-QUICK_UNITS = ['rt_builtin', 'vt_block', 'be_block_crs', 'be_eigen']
+QUICK_UNITS = ['rt_builtin', 'vt_block', 'be_block_crs', 'be_eigen', 'ip_unit']
 THOROUGH_UNITS = QUICK_UNITS + ['vt_float', 'vt_complex']
 
 
@@ -175,6 +175,46 @@ def slot_table_check(ck, units):
             ck.ob('slots', name, f.where(), ok, det)
 
 
+def conj_rule(ck, units):
+    """inner_product is conjugate-linear in the SECOND argument, for every value type and backend (sibling agreement)"""
+    from accesses import Analyzer
+    ck.rule('conj-second', 'in every inner_product implementation conjugation / adjoint is applied to (elements of) the second argument only; '
+                           'element-wise products keep the argument order (x first)', 8)
+    CONJ = ('adjoint', 'conj', 'conjugate')
+    done = set()
+    for u in units.values():
+        an = Analyzer([u])
+        for f in u.funcs:
+            cls = f.cls or ''
+            if not (cls in ('amgcl::math::inner_product_impl', 'amgcl::backend::inner_product_impl') and len(f.params) == 2 and f.q.split('::')[-1] in ('get', 'serial', 'parallel')):
+                continue
+            key = '%s|%s::%s@%d' % (f.rel(), cls, f.q.split('::')[-1], f.line)
+            if (key, f.full) in done:
+                continue
+            done.add((key, f.full))
+            dets = []
+            nconj = 0
+            for c in f.calls():
+                nm = c.get('m') or (c.get('f') or '').split('::')[-1]
+                if nm in CONJ:
+                    nconj += 1
+                    tgt = c.get('obj') if c.get('obj') is not None and c.get('m') else (c['a'][0] if c.get('a') else None)
+                    r = an.root_of_expr(f, tgt) if tgt is not None else None
+                    if r != ('param', 1):
+                        dets.append('%s is applied to %s at %s' % (nm, 'the first argument' if r == ('param', 0) else r, f.where(c)))
+                elif nm == 'dot' and c.get('obj') is not None and c.get('a'):
+                    # Eigen: a.dot(b) conjugates a
+                    nconj += 1
+                    if an.root_of_expr(f, c['obj']) != ('param', 1) or an.root_of_expr(f, c['a'][0]) != ('param', 0):
+                        dets.append('dot() conjugates its object: expected y.dot(x) at %s' % f.where(c))
+                elif nm == 'inner_product' and len(c.get('a', [])) == 2:
+                    nconj += 1
+                    if [an.root_of_expr(f, a) for a in c['a']] != [('param', 0), ('param', 1)]:
+                        dets.append('element inner product called with swapped arguments at %s' % f.where(c))
+            ck.ob('conj-second', key.rsplit('@', 1)[0] + '#' + str(sorted(x for x in {g.line for g in u.funcs if g.cls == cls and g.q == f.q and g.file == f.file}).index(f.line) + 1),
+                  f.where(), not dets, ('in %s: ' % f.full[:100] if dets else '') + '; '.join(dets), trivial=(nconj == 0))
+
+
 def main(tier):
     ck = Check('C07', tier, 'C07 (clause): a zero output coefficient makes every backend primitive overwrite its output without reading it.')
     T = os.path.join(ir.VERIF, 'tus')
@@ -203,6 +243,7 @@ def main(tier):
                 continue
             done.add(f.full)
             analyse(ck, f, prim, 'no-read-under-zero')
+    conj_rule(ck, units)
     finalize_keys(ck)
     ck.assumptions += ['math::is_zero(b) is true exactly for the additive zero of the coefficient type',
                        'the algebraic formula itself, Kahan summation accuracy and the conjugation convention are not decided']
